@@ -53,11 +53,19 @@ def run_shard(prop, tier, seed, shard, only=None):
     """Run the workloads of one shard in this process; returns a JSON-able report."""
     mod = load(prop)
     core.import_repo()
+    if os.environ.get("RV_PARAM_COV"):          # diagnostic only (tools/param_coverage.py)
+        from . import paramcov
+        paramcov.install()
     ctx = Ctx(prop, tier, seed, shard)
     k, n = shard
     t_start = time.time()
     if hasattr(mod, "setup"):
         mod.setup(ctx)
+    if hasattr(mod, "FORM_TWINS") and not os.environ.get("RV_NO_FORMS"):      # argument-representation twins on top of the monitors (rv/forms.py)
+        from . import forms
+        import atexit
+        forms.install(ctx, mod.FORM_TWINS())
+        atexit.register(forms.dump_record)
     caps_hit = []
     for wl in mod.WORKLOADS:
         if tier not in wl.tiers:
